@@ -14,10 +14,53 @@ fn raw(c: libp2p_swarm::ConnectionId) -> u64 {
     c.to_string().parse().expect("numeric connection id")
 }
 
+/// one inbound connection on the thread's Swarm; `deny` = index of the behaviour that refuses it at the pending stage
+fn inbound(r: &mut Run<Three>, vs: &mut Vec<u64>, deny: Option<usize>) {
+    for (b, pb) in r.behs().into_iter().enumerate() {
+        let p = vswarm::probe::Plan { deny_pending: deny == Some(b), deny_established: false, extra_addrs: vec![] };
+        pb.ctl.with(|ct| ct.incoming_plans.push_back(p));
+    }
+    r.rig.world.push_event(vswarm::puppet::Ev::Incoming {
+        listener: r.rig.ids.listener_of(r.listener).unwrap(),
+        local: crate::conn::addr(100),
+        send_back: crate::conn::addr(200),
+    });
+    r.rig.poll_quiescent();
+    for e in r.rig.log.drain() {
+        if e["e"] == "cbPendingIn" && e["b"] == "b1" {
+            let cid = r.rig.ids.conn_of(e["id"].as_i64().unwrap()).unwrap();
+            vs.push(raw(cid));
+        }
+    }
+    // fail the upgrade (if it was started) so that the pool does not grow
+    let n = r.rig.world.with(|w| w.upgrades.len());
+    if n > 0 {
+        r.rig.world.complete_upgrade(n - 1, vswarm::puppet::Outcome::Err);
+    }
+    r.rig.poll_quiescent();
+    r.rig.log.drain();
+    r.events.clear();
+}
+
 pub fn main(a: &vcommon::Args) {
     let threads = a.num(0) as usize;
     let per = a.num(1) as usize;
     let mut out = Out::create(a.get(2));
+    // single-threaded phase first (nothing else allocates): inbound connections accepted / denied at the pending
+    // stage by each behaviour, interleaved with dial ids
+    {
+        let mut r: Run<Three> = Run::new(&json!({"concurrency": 2}));
+        let mut vs = vec![];
+        let addr: libp2p_core::Multiaddr = "/ip4/10.0.1.1/tcp/1".parse().unwrap();
+        for i in 0..60usize {
+            match i % 4 {
+                0 => inbound(&mut r, &mut vs, None),
+                2 => inbound(&mut r, &mut vs, Some(i / 4 % 3)),
+                _ => vs.push(raw(DialOpts::unknown_peer_id().address(addr.clone()).build().connection_id())),
+            }
+        }
+        out.ev(json!({"t": 1000, "kind": "single-threaded swarm+dialopts", "vs": vs}));
+    }
     let barrier = Arc::new(Barrier::new(threads));
     let mut hs = vec![];
     for t in 0..threads {
@@ -30,25 +73,10 @@ pub fn main(a: &vcommon::Args) {
             let addr: libp2p_core::Multiaddr = "/ip4/10.0.1.1/tcp/1".parse().unwrap();
             for i in 0..per {
                 match (&mut run, i % 8) {
-                    (Some(r), 0) => {
-                        // an inbound connection: the id is taken inside Swarm::poll
-                        r.rig.world.push_event(vswarm::puppet::Ev::Incoming {
-                            listener: r.rig.ids.listener_of(r.listener).unwrap(),
-                            local: crate::conn::addr(100),
-                            send_back: crate::conn::addr(200),
-                        });
-                        r.rig.poll_quiescent();
-                        for e in r.rig.log.drain() {
-                            if e["e"] == "cbPendingIn" && e["b"] == "b1" {
-                                let cid = r.rig.ids.conn_of(e["id"].as_i64().unwrap()).unwrap();
-                                vs.push(raw(cid));
-                            }
-                        }
-                        // fail the upgrade so that the pool does not grow
-                        let n = r.rig.world.with(|w| w.upgrades.len());
-                        r.rig.world.complete_upgrade(n - 1, vswarm::puppet::Outcome::Err);
-                        r.rig.poll_quiescent();
-                        r.rig.log.drain();
+                    (Some(r), k) if k == 0 || k == 4 => {
+                        // an inbound connection: the id is taken inside Swarm::poll; every other one is denied
+                        // by one of the behaviours at the pending stage (the id is used up all the same)
+                        inbound(r, &mut vs, if k == 4 { Some(i / 8 % 3) } else { None });
                     }
                     _ => {
                         let o = DialOpts::unknown_peer_id().address(addr.clone()).build();
